@@ -14,6 +14,42 @@ CHECKS = {
         "text": "Every binary operator over all 64x64 posting-list alignments of a 6-document universe corpus with 1-3 postings per block (so block skipping and matcher replacement engage, which is measured), 3-leaf/nested/boosted/special-leaf trees over 12 representative alignments, k=1..5, eight weighting configurations, filter/mask/collapse/terms variants: the limited search must equal the prefix of the unlimited one. Complete within those bounds.",
         "note": "Trusted: search(limit=None) as the reference ranking (its own correctness is C01/C09), float tolerance 1e-9. Bounds: 6 documents, depth<=2.",
     },
+    "C10": {
+        "engine": "E1", "level": "exploration",
+        "technique": "bounded-exhaustive enumeration of token streams x posting formats x block sizes x compression x inlining x codecs x write paths on the real code, against a plain-Python token model",
+        "text": "Every token stream up to length 2-3 over a 4-term alphabet (long and non-BMP terms, boosts, position gaps), every posting-list length around block multiples for block sizes 1,2,3,128, all six posting/vector formats, W3 (compound/loose, compression, inline limit), memory and plain-text codecs, through IndexWriter, merges and the raw codec API: postings, term statistics and vectors read back must equal the model. Complete within those bounds.",
+        "note": "Trusted: the token model in mc/checks/c10.py; weights compared to float32 precision; min/max length accepted exact or through the documented byte approximation.",
+    },
+    "C11": {
+        "engine": "E4", "level": "model_checking",
+        "technique": "explicit-state BFS over matcher call programs on real matcher objects with state hashing (digest of the real object graph + model position), against a list model",
+        "text": "For every matcher built from the C01 query families over U(2..4) (scored and boolean contexts, with deletions, multi-segment MultiMatcher leaves) and directly constructed array/preloaded/filter/inverse/wrapping/list/span matchers: all call programs over {next, skip_to(t), skip_to_quality(0), replace(), copy, copy+advance, reset} up to depth 4 (thorough 6) are explored breadth-first with deduplication; in every state the cursor must sit at the model position and read what a fresh next()-only traversal read there; the list must equal the reference evaluator's result.",
+        "note": "Trusted: the object's own fresh next()-only traversal as list model (cross-checked against mc/qast.py), the generic state digest. Only calls whose documented precondition holds are made.",
+    },
+    "C14": {
+        "engine": "E1", "level": "exploration",
+        "technique": "bounded-exhaustive enumeration of sort-key assignments x key types x segment layouts x deletions x limits/pages x filter/mask forms x facets x collapse settings on the real code, against a plain-Python model (sorted(), partitions, slices)",
+        "text": "Every assignment docs -> {missing,v1,v2,v3} for D=3..5 documents applied to every key type (text/numeric/date/boolean with and without column, stored-field, query/range/function facets, score), every segment composition incl. segments lacking the column, two-key sorts with mixed directions, every filter x mask set in every object form, all pages, overlapping facets, collapse limits and orders: order, groups, collapse survivors, filtered subsequence, page slices and len() must equal the model.",
+        "note": "Trusted: the model in mc/checks/c14.py; only the documented placement of missing values is demanded; ties in collapse_order accepted either way.",
+    },
+    "C15": {
+        "engine": "E1", "level": "exploration",
+        "technique": "bounded-exhaustive enumeration of query trees x rewrites, differential on an all-document-contents corpus (equivalence on it implies equivalence on every index over the vocabulary)",
+        "text": "Every query tree to depth 2 (thorough 3) over 40 leaf kinds and all constructors/operators, and every well-formed parser string up to 3 clauses: normalize (idempotent, exception-free), &,|,-, with_boost, replace, apply/accept, deepcopy, pickle, simplify, estimate_size and parse(normalize=True) vs False are compared with the original query on the corpus V in 1- and 2-segment form.",
+        "note": "Trusted: the original query executed by docs_for_query as the reference (cross-checked with search(limit=None)); documented removal of empty queries accepted.",
+    },
+    "C16": {
+        "engine": "E1", "level": "exploration",
+        "technique": "bounded-exhaustive enumeration of token strings x parser configurations (totality) and of expression trees x renderings x configurations against the reference evaluator on an all-contents corpus (meaning)",
+        "text": "Totality: every string of <=3 tokens over a 42-token grammar-aware alphabet, 4-5 tokens over reduced alphabets, and range templates on every field type, through 8 parser configurations; parse() may only return a Query or raise QueryParserError and the result searched on three indexes may only raise QueryError. Meaning: every expression tree up to 4 leaves over the documented constructs, three parenthesisation styles, 4 configurations: matched documents equal the reference reading (NOT > AND > OR > binary operators > implicit grouping).",
+        "note": "Trusted: mc/qast.py reference evaluator; undocumented constructs (unparenthesised mixing of ANDNOT/ANDMAYBE/REQUIRE, *:*) are not generated.",
+    },
+    "C20": {
+        "engine": "E4", "level": "model_checking",
+        "technique": "explicit-state BFS over id-set operation sequences with canonical state hashing against Python sets, plus bounded-exhaustive enumeration of hash-file key sequences, encodings, external sorts and compound files",
+        "text": "Id sets: BFS to depth 4 (thorough: to the fixpoint of the state space) over ~300 operations per state on BitSet/SortedIntSet/ReverseIdSet with OnDiskBitSet and MultiIdSet views of every state, all observations compared with a Python set in every state. Tables/codecs: every key sequence <=4 over 11 keys incl. forced bucket/slot/hash collisions, ordered-file probes, varint/GrowableArray boundaries, StructFile items, external sort inputs <=5 items, compound files over member subsets.",
+        "note": "Trusted: Python set / dict / sorted() as reference models; canonical state = the real representation (bit-array bytes etc.).",
+    },
 }
 
 NOT_APPLICABLE = {}
